@@ -39,6 +39,17 @@ class CreateBranchJob(APIJob):
         return 'Create destination branch %r' % self.settings.branch
 
 
+def is_canonical_version(version: str) -> bool:
+    """Is every number of the version written without leading zeros?
+
+    Archive tags, queue names and the stabilization guard of delete_branch
+    compare versions as text: 'development/04.3' would be another spelling of
+    the archived 'development/4.3'.
+
+    """
+    return all(part == str(int(part)) for part in version.split('.'))
+
+
 @handler(CreateBranchJob)
 def create_branch(job: CreateBranchJob):
     """Create a new destination branch."""
@@ -58,7 +69,8 @@ def create_branch(job: CreateBranchJob):
 
     if not (isinstance(new_branch, DevelopmentBranch) or
             isinstance(new_branch, StabilizationBranch) or
-            isinstance(new_branch, HotfixBranch)):
+            isinstance(new_branch, HotfixBranch)) or \
+            not is_canonical_version(new_branch.version):
         raise exceptions.JobFailure('Requested new branch %r is not a GWF '
                                     'destination branch.' % new_branch)
 
